@@ -326,6 +326,9 @@ func TrySelect(ops ...ChanOp) (isel int, recvOK, tryOK bool) {
 			}
 		}
 	}
+	if selectSendOnClosed(ops) {
+		panic(plainError("send on closed channel"))
+	}
 	return
 }
 
@@ -341,9 +344,12 @@ func Select(ops ...ChanOp) (isel int, recvOK bool) {
 		}
 		prepareSelect(op.C, selOp, op.Send)
 	}
-	var tryOK bool
+	var tryOK, sendOnClosed bool
 	for {
 		if isel, recvOK, tryOK = trySelect(ops, sendFirst, sendChans); tryOK {
+			break
+		}
+		if sendOnClosed = selectSendOnClosed(ops); sendOnClosed {
 			break
 		}
 		selOp.wait()
@@ -355,7 +361,27 @@ func Select(ops ...ChanOp) (isel int, recvOK bool) {
 		endSelect(op.C, selOp, op.Send)
 	}
 	selOp.end()
+	if sendOnClosed {
+		panic(plainError("send on closed channel"))
+	}
 	return
+}
+
+// selectSendOnClosed reports whether some send case addresses a closed channel:
+// such a case is ready, and proceeding with it panics.
+func selectSendOnClosed(ops []ChanOp) bool {
+	for _, op := range ops {
+		if op.C == nil || !op.Send {
+			continue
+		}
+		op.C.mutex.Lock()
+		closed := op.C.close
+		op.C.mutex.Unlock()
+		if closed {
+			return true
+		}
+	}
+	return false
 }
 
 func trySelect(ops []ChanOp, sendFirst bool, sendChans map[*Chan]bool) (isel int, recvOK, tryOK bool) {
